@@ -106,7 +106,7 @@ func (m *RuleManager) loadRules() error {
 			toDelete = append(toDelete, k)
 			return
 		}
-		if err := m.adjustRule(&r, ""); err != nil {
+		if err := m.adjustRuleFormat(&r, ""); err != nil {
 			log.Error("rule is in bad format", zap.String("rule-key", k), zap.String("rule-value", v), errs.ZapError(errs.ErrLoadRule, err))
 			toDelete = append(toDelete, k)
 			return
@@ -151,7 +151,22 @@ func (m *RuleManager) loadGroups() error {
 }
 
 // check and adjust rule from client or storage.
-func (m *RuleManager) adjustRule(r *Rule, groupID string) (err error) {
+func (m *RuleManager) adjustRule(r *Rule, groupID string) error {
+	if err := m.adjustRuleFormat(r, groupID); err != nil {
+		return err
+	}
+	// only for rules from a client: a stored rule was accepted earlier and stays valid when its stores go away.
+	if m.storeSetInformer != nil {
+		stores := m.storeSetInformer.GetStores()
+		if len(stores) > 0 && !checkRule(r, stores) {
+			return errs.ErrRuleContent.FastGenByArgs(fmt.Sprintf("rule '%s' from rule group '%s' can not match any store", r.ID, r.GroupID))
+		}
+	}
+	return nil
+}
+
+// adjustRuleFormat checks and adjusts what depends on the rule alone.
+func (m *RuleManager) adjustRuleFormat(r *Rule, groupID string) (err error) {
 	r.StartKey, err = hex.DecodeString(r.StartKeyHex)
 	if err != nil {
 		return errs.ErrHexDecodingString.FastGenByArgs(r.StartKeyHex)
@@ -202,13 +217,6 @@ func (m *RuleManager) adjustRule(r *Rule, groupID string) (err error) {
 	for _, c := range r.LabelConstraints {
 		if !validateOp(c.Op) {
 			return errs.ErrRuleContent.FastGenByArgs(fmt.Sprintf("invalid op %s", c.Op))
-		}
-	}
-
-	if m.storeSetInformer != nil {
-		stores := m.storeSetInformer.GetStores()
-		if len(stores) > 0 && !checkRule(r, stores) {
-			return errs.ErrRuleContent.FastGenByArgs(fmt.Sprintf("rule '%s' from rule group '%s' can not match any store", r.ID, r.GroupID))
 		}
 	}
 
